@@ -39,7 +39,8 @@ def plan(tier):
     return {"cases": 64 if tier == "quick" else 900, "shards": 16, "case_timeout": 300, "shard_timeout": 3000,
             "dev_shard": False, "min_nontrivial": 10,
             "min_counters": {"models_generated": 40, "daos_checked": 150, "columns_checked": 300,
-                             "relationships_checked": 100, "determinism_pairs": 40, "permuted_pairs": 20}}
+                             "relationships_checked": 100, "determinism_pairs": 40, "permuted_pairs": 20,
+                             "models_with_the_enum_in_a_module_of_its_own": 8}}
 
 
 def setup(ctx):
@@ -66,6 +67,8 @@ def gen(rng, tier, ctx):
         src = modelgen.render(spec)
     perm = list(spec["order"])
     rng.shuffle(perm)
+    if rng.random() < 0.3:
+        spec["enum_module"] = True
     return {"spec": spec, "perm": perm, "profile": profile}
 
 
@@ -205,6 +208,10 @@ def run(spec_case, ctx):
     try:
         with open(os.path.join(workdir, modname + ".py"), "w") as fh:
             fh.write(modelgen.render(spec))
+        if spec.get("enum_module"):
+            with open(os.path.join(workdir, modname + "_enum.py"), "w") as fh:
+                fh.write(modelgen.ENUM_MODULE_SOURCE)
+            C["models_with_the_enum_in_a_module_of_its_own"] += 1
         out = run_driver(workdir, modname, spec["order"], 0)
         C["models_generated"] += 1
         key_hint = None
@@ -224,6 +231,8 @@ def run(spec_case, ctx):
         # determinism: same input, other hash seed, other process
         wd2 = tempfile.mkdtemp(prefix=modname + "-b-", dir=ctx["workroot"])
         shutil.copy(os.path.join(workdir, modname + ".py"), wd2)
+        if spec.get("enum_module"):
+            shutil.copy(os.path.join(workdir, modname + "_enum.py"), wd2)
         out2 = run_driver(wd2, modname, spec["order"], 12345)
         C["determinism_pairs"] += 1
         if out2.get("stage") != "done":
@@ -236,6 +245,8 @@ def run(spec_case, ctx):
         if spec_case["perm"] != spec["order"]:
             wd3 = tempfile.mkdtemp(prefix=modname + "-c-", dir=ctx["workroot"])
             shutil.copy(os.path.join(workdir, modname + ".py"), wd3)
+            if spec.get("enum_module"):
+                shutil.copy(os.path.join(workdir, modname + "_enum.py"), wd3)
             out3 = run_driver(wd3, modname, spec_case["perm"], 7)
             C["permuted_pairs"] += 1
             if out3.get("stage") != "done":
